@@ -118,8 +118,17 @@ def isCapKind (k : String) : Bool := ["perm", "replace", "flip", "flop", "add", 
 /-- the model's replay of one event on its own store -/
 def replayEv (s : Store) (e : Ev) : String × Store :=
   if e.full then
-    -- a full sync starts from `config.Clear()`: no committed state, the update reloads; the store is what was built
-    (showEv e.id true e.cmds e.uh e.ub { hosts := e.hosts, backs := e.backs }, { hosts := e.hosts, backs := e.backs })
+    -- a full sync starts from `config.Clear()`: no committed state (reload, no runtime command), every host added,
+    -- the backends compared with the committed ones
+    let bodyOf (b : Bk) : Nat :=
+      if b.body = 1 then 1 else
+      match e.pairs.find? (·.id == b.id) with
+      | some p => if C11.shrinks true p.old p.cur then 0 else 1
+      | none => 1
+    let r : Recr := { hostsDel := e.hd, hosts := e.ha, backsDel := e.bd, backs := e.ba.map fun b => { b with body := bodyOf b } }
+    let m := cycleFull s r
+    let s' : Store := { hosts := m.hosts, backs := m.backs.map fun b => { b with body := 0 } }
+    (showEv e.id (reloadDecision false m) 0 (changedHosts m) (changedBacks m) s', s')
   else
     let bodyOf (b : Bk) : Nat :=
       if b.body = 1 then 1 else
@@ -159,14 +168,18 @@ def flagsFromHosts (hosts : List Host) (backs : List Bk) : Bool := backs.all fun
 command) and `reload-on-in-capacity-change` -/
 def evOracle (e : Ev) : Option String :=
   if e.err then some "update-error" else
-  if e.full then none else
   let main : Option String :=
     if isNoopKind e.kind then
-      if tcpTouched e then none
+      if e.full then
+        -- known finding: a no-op notification of a full-sync kind (IngressClass) rebuilds the whole config from
+        -- `config.Clear()`: no committed state, every host "added", HAProxy reloads although nothing changed
+        if e.reloads > 0 then some (if e.kind = "cls" then "reload-on-noop:full-sync-rebuilds-every-host" else "reload-on-noop")
+        else if e.cmds > 0 then some "command-on-noop" else none
+      else if tcpTouched e then none
       else if e.reloads > 0 then some "reload-on-noop"
       else if e.cmds > 0 then some "command-on-noop" else none
     else if isCapKind e.kind then
-      if e.reloads > 0 ∧ !capNeedsReload e then some "reload-on-in-capacity-change" else none
+      if !e.full ∧ e.reloads > 0 ∧ !capNeedsReload e then some "reload-on-in-capacity-change" else none
     else none
   match main with
   | some c => some c
@@ -192,7 +205,11 @@ def handleWorld (_ops : List String) (impl : String) : Verdict :=
       let agree := run.2.1 = obs
       let verdict : Option (String × String) :=
         if !flagsFromHosts s0.hosts s0.backs then some ("derived-tls-auth-flag-differs-from-hosts", "init") else
-        es.findSome? fun e => (evOracle e).map fun c => (c, e.id)
+        -- any other clause first: the known full-sync finding must not mask it
+        let all := es.filterMap fun e => (evOracle e).map fun c => (c, e.id)
+        match all.find? (fun x => x.1 != "reload-on-noop:full-sync-rebuilds-every-host") with
+        | some x => some x
+        | none => all.head?
       -- what the log shows: the first event on which model and implementation differ / the event the Spec rejects
       let firstDiff := ((run.2.1.zip obs).find? fun (a, b) => a != b).map fun (a, b) => "model[" ++ a ++ "]impl[" ++ b ++ "]"
       let mtxt := (if agree then "agree:" ++ toString es.length ++ "-events" else firstDiff.getD "length-differs") ++
